@@ -366,7 +366,8 @@ func build(tier string) []*explore.Scenario {
 		scs = append(scs, sc)
 	}
 	if tier == "thorough" {
-		scs = append(scs, scenario(plan{Listeners: 2, Inbound: 2, Connects: 1}, 1), scenario(plan{Listeners: 2, Inbound: 1, LClose: true, Relisten: true}, 2))
+		// (plans with two listeners plus inbound and outbound connections do not finish even the preemption-free level in 5 minutes: left out)
+		scs = append(scs, scenario(plan{Listeners: 2, Inbound: 1, LClose: true, Relisten: true}, 2))
 	}
 	return scs
 }
